@@ -140,22 +140,94 @@ def handle (args : List String) : Option String :=
     -- the real LockImageConfiguration: `labels` are the keys it uses for the architectures, in order
     match readArchs narch.toNat! rest with
     | some (archs, [go]) =>
-      let w := strList world
+      let w := (sortS (strList world)).eraseDups     -- build.New writes sets.List(sets.New(packages...)) to /etc/apk/world
       let lab := strList labels
       match allOk (resolveAll archs w) with
       | none => some ("err\tpass\t-")
       | some sets =>
         let inputs := (sets.zip lab).map fun ((_, s), l) => resolvedOf l s
-        let outs := (perms inputs).map fun p => showUR (unify w p)
-        let canon := showUR (unify w inputs)
+        let showCfg (r : UR) : String :=
+          match r with
+          | .err => "err"
+          | .ok b m => showUR (.ok b m) ++ "|A " ++ ";".intercalate ((sortS (keys b)).map fun k =>
+              enc k ++ ":" ++ (if k = indexKey then ",".intercalate (lab.map enc) else enc k))
+        let outs := (perms inputs).map fun p => showCfg (unify w p)
+        let canon := showCfg (unify w inputs)
         let impl := if outs.contains go then go else canon
         if outs.any (· != canon) then some (impl ++ "\tfail:arch-order-dependent\tF09g") else
-        match parseUR go with
+        match parseUR ((go.splitOn "|A ").headD "") with
         | none => some (impl ++ "\tpass\t-")
         | some (byArch, _) =>
           match specCheck w inputs byArch with
           | some why => some (impl ++ "\tfail:" ++ why ++ "\tunlisted")
           | none => some (impl ++ "\tpass\t-")
+    | _ => some "bad-universe\tfail:bad-universe\tunlisted"
+  | "l.e2e" :: world :: narch :: rest =>
+    match readArchs narch.toNat! rest with
+    | some (archs, [go]) =>
+      let w := (sortS (strList world)).eraseDups     -- build.New writes sets.List(sets.New(packages...)) to /etc/apk/world
+      let field (k : String) : String :=
+        ((go.splitOn " ").find? (·.startsWith (k ++ "="))).map (fun s => (s.drop (k.length + 1)).toString) |>.getD ""
+      -- `apko lock`: every architecture alone, on the requested world
+      let singles := archs.map fun (a, u) => (a, resolve (cfgOf u) w [])
+      let lockOk := allOk singles
+      let showNV (l : List Pkg) := ",".intercalate ((sortS (l.map fun p => p.name ++ ['='] ++ p.version)).map enc)
+      -- `apko build`: joint resolution, unify, then each per-architecture lock re-resolved alone
+      let multi := allOk (resolveAll archs w)
+      let cfgs := multi.bind fun sets =>
+        match unify w (sets.map fun (a, s) => resolvedOf a s) with
+        | .err => none
+        | .ok byArch _ => some (sets.map fun (a, s) => (a, s, sget byArch a))
+      let relocks := cfgs.map fun l => l.map fun (a, s, pl) =>
+        (a, s, match lookupT archs a with | some u => resolve (cfgOf u) pl [] | none => .err)
+      let firstBad := relocks.bind fun l => l.find? fun (_, _, r) => match r with | .ok _ => false | _ => true
+      let buildOk := match relocks with | some l => l.all (fun (_, _, r) => match r with | .ok _ => true | _ => false) | none => false
+      let ids (l : List Pkg) := l.map (·.id)
+      let same : Bool := match relocks, lockOk with
+        | some l, some ss => l.all fun (a, _, r) =>
+            match r, lookupT ss a with
+            | .ok x, some s1 => ids x.install == ids s1
+            | _, _ => false
+        | _, _ => false
+      let sameSets : Bool := match relocks, lockOk with
+        | some l, some ss => l.all fun (a, _, r) =>
+            match r, lookupT ss a with
+            | .ok x, some s1 => sameSet (ids x.install) (ids s1)
+            | _, _ => false
+        | _, _ => false
+      let impl := "build=" ++ (if buildOk then "ok" else "err") ++
+        " lock=" ++ (if lockOk.isSome then "ok" else "err") ++
+        " ranges=" ++ (if lockOk.isSome then "ok" else "-") ++
+        " locked=" ++ (if lockOk.isNone then "-" else if cfgs.isSome then "ok" else "err") ++
+        " same=" ++ (if lockOk.isNone || cfgs.isNone || !buildOk then "-" else toString same) ++
+        " samefs=" ++ (if lockOk.isNone || cfgs.isNone || !buildOk then "-" else toString sameSets) ++
+        " pkgs=" ++ (match lockOk with
+          | some ss => ";".intercalate (ss.map fun (a, s) => enc a ++ ":" ++ showNV s)
+          | none => "-")
+      let rg := field "ranges"
+      if rg != "ok" && rg != "-" then some (impl ++ "\tfail:" ++ rg ++ "\tunlisted") else
+      if field "build" = "ok" then
+        if field "lock" = "ok" && field "locked" = "ok" && field "same" = "true" then some (impl ++ "\tpass\t-")
+        else if field "lock" = "ok" && field "locked" = "ok" && field "samefs" = "true" then
+          -- same packages, same files; only the order of installation (lib/apk/db/installed) differs
+          some (impl ++ "\tfail:install-order-differs\tF09j")
+        else
+          -- `apko lock` resolves every architecture alone, `apko build` jointly
+          let diverges := match multi, lockOk with
+            | some m, some ss => m.any fun (a, s) => match lookupT ss a with | some s1 => !sameSet (ids s) (ids s1) | none => true
+            | _, _ => true
+          let cls := if archs.length > 1 && diverges then "F09i" else
+            match relocks.bind (·.head?), archs.head? with
+            | some (_, s, _), some (_, u) => relockClass u w s
+            | _, _ => "unlisted"
+          some (impl ++ "\tfail:locked-build-differs\t" ++ cls)
+      else
+        match firstBad with
+        | some (a, s, _) =>
+          match lookupT archs a with
+          | some u => some (impl ++ "\tfail:unlocked-build-fails-on-its-own-lock\t" ++ relockClass u w s)
+          | none => some (impl ++ "\tpass\t-")
+        | none => some (impl ++ "\tpass\t-")
     | _ => some "bad-universe\tfail:bad-universe\tunlisted"
   | _ => none
 
